@@ -1,6 +1,6 @@
 (* C10 — runtime sizing parameters do not change program results.
    Only statements here; proofs live in Proofs/C10_Stack.v (and Proofs/C13_Refine.v). *)
-From Elk Require Import Base.GoSem Model.C10_Stack Proofs.C10_Stack Proofs.C13_Refine Proofs.C13_Sim.
+From Elk Require Import Base.GoSem Model.C10_Stack Model.C10_Resume Proofs.C10_Stack Proofs.C10_Resume Proofs.C13_Refine Proofs.C13_Sim.
 Open Scope Z_scope.
 
 (* growValueStack (fixed formulas) is invisible: for every state whose pointers are slot
@@ -57,6 +57,20 @@ Theorem C10_stale_slot_address_refuted :
     abs (poke (grow s nb) (sp (grow s nb) - W) v) <> abs (grow s nb).
 Proof. exact stale_slot_address. Qed.
 Print Assumptions C10_stale_slot_address_refuted.
+
+(* Also outside the operation set: CallGeneratorNext restoring a suspended generator's saved frame (self,
+   parameters, locals, pending temporaries) at the top of the stack.  FINITE WITNESS on the model only: when the
+   destination is derived from the stack pointer AFTER a growth the view equals that of the restore without growth
+   (capacity doubled); a restore that reserves the slots, grows, and then writes through the destination ADDRESS
+   computed before the growth leaves the saved frame in the abandoned array - the generator's locals are lost and
+   the result depends on the initial stack size.  The Go code is covered at implementation level by the
+   generator-resume family of the depth sweep (stream c10.env). *)
+Theorem C10_generator_resume_stale_refuted :
+  exists s nb fr, GInv s /\
+    abs (resume_frame (grow s nb) fr) = abs_resized (resume_frame s fr) /\
+    abs (resume_frame_stale s nb fr) <> abs_resized (resume_frame s fr).
+Proof. exact generator_resume_stale. Qed.
+Print Assumptions C10_generator_resume_stale_refuted.
 
 Example C10_run_indep_nonvacuous :
   let l1 := [OPush 1; OPush 2; OCapture 1; OGrow 5000; OCall 1; OPush 3; OGetUp 0; ORet; OSetUp 0 9; OGetLocal 1; OGetUp 0] in
